@@ -61,6 +61,8 @@ TNext ==
     \* unit is blocked and the joined streams' pools are empty
     \/ (Is("Blocked") /\ Ev.n >= 0 /\ (Ev.tag = "afterjoin" /\ Ev.p > 0 => Ev.n = 0 /\ Ev.size = 0) /\ NoOp)
     \/ (Is("FinalizeCall") /\ NoOp)
+    \* after ABT_finalize nothing obtained from the system allocator is left, nothing was freed twice
+    \/ (Is("Ledger") /\ Ev.live = 0 /\ Ev.errors = 0 /\ NoOp)
     \/ (Is("FinalizeRet") /\ AllTerminated(SeqToSet(Ev.us)) /\ NoOp)
     \/ (Is("End") /\ (Ev.why = "done" => \A u \in Units : st[u] \in {"none", "done", "freed"}) /\ NoOp)
 TSpec == TInit /\ [][TNext]_tvars
